@@ -523,6 +523,33 @@ func ruleC02R4(c *Ctx) {
 				"the nil store is only reachable through the ok == true edge of sendChunk", "lastChunk is cleared on a path where sendChunk did not report success")
 		}
 	}
+	// lastChunk is cleared nowhere else — except after the chunk was queued for ACK (the acknowledger holds it then)
+	for _, f := range c.P.universe {
+		nm := anchorName(f)
+		if nm == aResend || nm == aProcInput || nm == aNewSession {
+			continue
+		}
+		for _, st := range storesToField(f, fLastChunk) {
+			k, isK := st.Val.(*ssa.Const)
+			if !isK || !k.IsNil() {
+				continue
+			}
+			ok := false
+			eachInstr(f, func(in ssa.Instruction) {
+				if sel, isSel := in.(*ssa.Select); isSel {
+					for i, stt := range sel.States {
+						if stt.Dir == types.SendOnly && fieldOf(stt.Chan) == fAckerChan {
+							if c.onlyViaBlock(f, st, selectCaseBlock(sel, i)) {
+								ok = true
+							}
+						}
+					}
+				}
+			})
+			c.check(ok, "C02.R4", f, "lastChunk cleared only after the chunk was queued for ACK", st.Pos(),
+				"the nil store lies behind the case that sent the chunk on ackerChan", "lastChunk is cleared while the chunk is held by nobody else: a stop or acknowledger exit before it is queued loses the chunk (it is neither resent nor handed back for persistence)")
+		}
+	}
 	// sendChunk returns true only on the path that queued the chunk for ACK
 	fn := c.P.Fn(aSendChunk)
 	var sel *ssa.Select
